@@ -636,6 +636,9 @@ def draw_op(draw, S: GState, P: dict):
             op["dmm"] = draw(st.integers(0, len(S.dmms()) - 1))
         S.slm = True
         return op
+    if kind == "magfield" and P.get("fault_pct", 0) and draw(st.integers(0, 3)) == 0:
+        # a null field: refused (nothing may remain of the attempt)
+        return dict(op="magfield", b=[0.0, 0.0, 0.0], style=style, fault="zero_field")
     if kind == "magfield":
         return dict(op="magfield", b=[draw(fl(-30, 30)), draw(fl(-30, 30)), draw(st.sampled_from([30.0, 0.0, 10.0]))], style=style)
     if kind == "measure":
@@ -740,6 +743,9 @@ def draw_op(draw, S: GState, P: dict):
     if kind == "delay":
         op = dict(op="delay", ch=draw(st.sampled_from(list(range(len(S.declared))))),
                   d=_dur(draw, S.declared[i]["cs"]), style=style)
+        if P.get("frac_delays") and draw(st.integers(0, 2)) == 0:
+            # a duration that is not a whole number of ns (accepted with a warning, rounded up)
+            op["d"] = op["d"] + draw(st.sampled_from([0.5, 0.25, 0.75]))
         if draw(st.booleans()):
             op["at_rest"] = draw(st.booleans())
         return op
@@ -769,7 +775,8 @@ def draw_op(draw, S: GState, P: dict):
                         for cc in S.declared})
         b = draw(st.sampled_from(bases))
         op = dict(op=draw(st.sampled_from(["phase_shift", "phase_shift", "phase_shift_index"])),
-                  phi=draw(st.sampled_from([math.pi, -1.0, 0.5, 7.0, TWO_PI, 1e-12, -TWO_PI * 3]) | fl(-20, 20)),
+                  phi=draw(st.sampled_from([math.pi, -1.0, 0.5, 7.0, TWO_PI, 1e-12, -TWO_PI * 3]
+                                           + list(P.get("extra_phases", []))) | fl(-20, 20)),
                   qubits=draw(st.sampled_from(["all", "all", "sub", "sub", "none"])),
                   style=style)
         op["qubits"] = {"all": list(range(S.nq)), "none": []}.get(op["qubits"]) \
